@@ -35,6 +35,11 @@ class World:
                 continue
             f, n, v = rel.split("/")
             common.mkprod(self.stacks[si], n, v, "", flavor=f)
+        self.src = os.path.join(self.root, "src")          # sources of external files (-L), outside the stacks
+        os.makedirs(self.src)
+        for cid in (1, 2, 3):
+            with open(os.path.join(self.src, "c%d" % cid), "w") as f:
+                f.write("content %d\n" % cid)
         self.clock = 1000000000
         self.known = {}
         self.normalise()
@@ -153,7 +158,7 @@ class World:
         """What is on disk, read without any eups code.  Returns
         {"vfiles": [[si, name, version, [[flavor, PROD_DIR, UPS_DIR, TABLE_FILE]..]]..],
          "cfiles": [[si, name, tag, [[flavor, version]..]]..], "other": [paths]}"""
-        vfiles, cfiles, other = [], [], []
+        vfiles, cfiles, other, extras = [], [], [], []
         for si, st in enumerate(self.stacks):
             db = os.path.join(st, "ups_db")
             for n in sorted(os.listdir(db)):
@@ -161,6 +166,18 @@ class World:
                 if not os.path.isdir(pd):
                     if not CACHE_RE.search(n):
                         other.append("%d:%s" % (si, n))
+                    continue
+                if n in FLAVS:                     # extra directories: ups_db/<flavor>/<name>/<version>/<path>
+                    for dp, dn, fn in os.walk(pd):
+                        for f in fn:
+                            rel = os.path.relpath(os.path.join(dp, f), pd).split(os.sep)
+                            with open(os.path.join(dp, f)) as fh:
+                                txt = fh.read().strip()
+                            cid = int(txt.split()[1]) if txt.startswith("content ") else txt
+                            if len(rel) >= 3:
+                                extras.append([si, n, rel[0], rel[1], "/".join(rel[2:]), cid])
+                            else:
+                                other.append("%d:%s/%s" % (si, n, "/".join(rel)))
                     continue
                 ents = sorted(os.listdir(pd))
                 if not ents:
@@ -173,7 +190,7 @@ class World:
                         cfiles.append([si, n, f[:-6], _parse_groups(p, ("VERSION",))])
                     else:
                         other.append("%d:%s/%s" % (si, n, f))
-        return {"vfiles": vfiles, "cfiles": cfiles, "other": other}
+        return {"vfiles": vfiles, "cfiles": cfiles, "other": other, "extras": sorted(extras)}
 
 
 def _parse_groups(path, keys):
@@ -258,7 +275,8 @@ MSG_RES = [(re.compile(r'^Declaring directory (.*) as (\S+) (\S+)(?: (\S+))? in 
            (re.compile(r'^Assigning tag "(\S+)" to '), "assigning"),
            (re.compile(r'^eups undeclare --tag (\S+) (\S+)'), "untag"),
            (re.compile(r'^Removing (\S+) (\S+) from version list for (.*)$'), "removing"),
-           (re.compile(r'^rm -rf (.*)$'), "rmrf")]
+           (re.compile(r'^rm -rf (.*)$'), "rmrf"),
+           (re.compile(r'^cp (\S+) (\S+)$'), "copy")]
 
 
 def parse_would(world, text):
@@ -280,6 +298,9 @@ def parse_would(world, text):
             elif kind == "removing":
                 st = world.stacks.index(m.group(3)) if m.group(3) in world.stacks else m.group(3)
                 out.append(["removing", m.group(2), st])
+            elif kind == "copy":
+                parts = m.group(2).split("/ups_db/", 1)[-1].split("/")      # <flavor>/<name>/<version>/<path>
+                out.append(["copy", "/".join(parts[3:])])
             else:
                 out.append(["rmrf", world.canon_path(m.group(1))])
             break
@@ -318,6 +339,8 @@ def _child_command(world, cmd, probe=None):
             kw = {}
             if cmd.get("table") == "none":
                 kw["tablefile"] = "none"
+            if cmd.get("ext"):
+                kw["externalFileList"] = [(os.path.join(world.src, "c%d" % cid), path) for path, cid in cmd["ext"]]
             ret = e.declare(cmd["name"], cmd["version"], world.path_of(cmd.get("dir")), st(cmd.get("stack")),
                             tag=cmd.get("tag"), **kw)
         elif op == "undeclare":
@@ -423,7 +446,7 @@ def rel_of(f, n, v):
 
 
 def gen_history(rng, ncmds, users=("A",), crash=0.0, rmcache=0.0, query=0.0, noaction=0.08, direct_tag=0.12,
-                remove=0.03):
+                remove=0.03, ext=0.08):
     """A history weighted toward the order-sensitive patterns: few product names, tag - undeclare -
     redeclare, two flavors in one version file, the same product in both stacks."""
     names = rng.sample(NAMES, rng.choice([1, 1, 2, 3]))
@@ -475,6 +498,8 @@ def gen_history(rng, ncmds, users=("A",), crash=0.0, rmcache=0.0, query=0.0, noa
                 c["table"] = "none"
             if rng.random() < 0.12:
                 c["force"] = True
+            if rng.random() < ext:
+                c["ext"] = [[p, rng.choice([1, 2])] for p in rng.sample(["doc/a.txt", "b.cfg", "doc/c.txt"], rng.choice([1, 1, 2]))]
             if (n, v, f) not in known:
                 known.append((n, v, f))
         elif kind in ("undeclare", "undeclare_nov", "untag", "untag_nov", "vat", "vat_nov"):
@@ -594,6 +619,7 @@ def run_history(case, hash_noaction=True, probe=None, world_hook=None):
             rec["raw"] = {"vfiles": [[si, n, v, [g[0] for g in groups]] for si, n, v, groups in parsed["vfiles"]],
                           "cfiles": [[si, n, t, [g[0] for g in groups]] for si, n, t, groups in parsed["cfiles"]],
                           "other": parsed["other"]}
+            rec["extras"] = parsed["extras"]
             if world_hook:
                 world_hook(w, cmd, rec)
             steps.append(rec)
@@ -613,7 +639,7 @@ def model_request(case, pinned=False, m="c06"):
             cmds.append({"op": "rmcache", "user": UID[c["user"]], "stack": c["stack"], "flavor": c["flavor"]})
             continue
         d = {"op": c["op"], "user": UID[c.get("user", "A")], "self": c.get("flavor", "Linux")}
-        for k in ("name", "version", "dir", "stack", "tag", "force", "noaction", "vat", "crash", "recursive", "setup"):
+        for k in ("name", "version", "dir", "stack", "tag", "force", "noaction", "vat", "crash", "recursive", "setup", "ext"):
             if k in c:
                 d[k] = c[k]
         if c.get("table") == "none":
@@ -634,7 +660,7 @@ def model_steps(ans):
         fl = st.get("files") or {"vfiles": [], "cfiles": [], "abs": {"decls": [], "tags": []}}
         out.append({"out": st["out"], "crashed": st["crashed"], "loaded": [sorted(x) for x in st["flavs"]],
                     "db": canon_spec(st["db"]), "view": canon_spec(st["view"]), "trace": st["trace"],
-                    "caches": st["caches"], "would": st.get("would", []),
+                    "caches": st["caches"], "would": st.get("would", []), "extras": sorted(st.get("extras", [])),
                     "raw": {"vfiles": sorted(fl["vfiles"]), "cfiles": sorted(fl["cfiles"])},
                     "files_abs": canon_spec(fl["abs"])})
     return out
